@@ -15,6 +15,8 @@ import AdaptaVerif.Lemmas.AStarGraph
 import AdaptaVerif.Lemmas.AStarWitness
 import AdaptaVerif.Lemmas.AStarBridge
 import AdaptaVerif.Lemmas.AStarEstimate
+import AdaptaVerif.Lemmas.AStarRoute
+import AdaptaVerif.Lemmas.AStarTotal
 namespace AdaptaVerif.Props.C05AStar
 open AdaptaVerif.Model.AStar AdaptaVerif.Lemmas.AStarSpec
 open AdaptaVerif.Lemmas.AStarOpt (bonusOf)
@@ -30,6 +32,38 @@ theorem search_sound (P : Problem) (fuel : Nat) (b : Node) (done : List Node)
 
 example : (search Lemmas.AStarWitness.closedList 10 (init Lemmas.AStarWitness.closedList)).chain = [0, 1, 3, 4] := by
   decide +kernel
+
+/-- **Termination / the fuel is no restriction.**  PENDING ∪ DONE hold every key (vertex, previous vertex)
+    at most once and every iteration moves one key to DONE for good; so for any finite universe `K` of
+    states closed under the successor relation, fuel > |K| is never exhausted: the search ends with
+    `found` or `noPath` (so `search_sound` / `search_optimal` are not vacuous for lack of fuel). -/
+theorem search_total (P : Problem) (K : List (Option Nat × Nat))
+    (hK0 : (none, P.src) ∈ K)
+    (hKs : ∀ pv v s, (pv, v) ∈ K → some s ∈ P.succs pv v → (some v, s.w) ∈ K)
+    (fuel : Nat) (hf : K.length < fuel) :
+    search P fuel (init P) ≠ .outOfFuel :=
+  Lemmas.AStarTotal.search_total P K hK0 hKs fuel hf
+
+/-- … in particular the orthogonal router's search on ANY dumped graph, with the fuel the driver gives it
+    (number of directed edges + 2), never runs out of fuel. -/
+theorem graph_run_total (g : Graph) : g.run ≠ .outOfFuel :=
+  Lemmas.AStarTotal.graph_run_total g
+
+/-- **What libavoid reads back is the loop-erased chain.**  `search` stores its result in ONE `pathNext`
+    pointer per vertex, so when the returned node chain visits a vertex twice (DONE is keyed on (vertex,
+    previous vertex); harness case `c05 --seed 1 --tier quick --mode dirs2 --only 2378` does) the route is
+    not the chain.  For every chain (target first): the route read back starts at the target, ends at the
+    source, visits no vertex twice, contains only vertices of the chain, and each of its hops is a hop of
+    the chain (hence an edge the search walked). -/
+theorem route_is_loop_erased_chain (chain : List Nat) :
+    (∀ x ∈ routeOfChain chain.length chain, x ∈ chain) ∧
+    (routeOfChain chain.length chain).Nodup ∧
+    (routeOfChain chain.length chain).head? = chain.head? ∧
+    (routeOfChain chain.length chain).getLast? = chain.getLast? ∧
+    (∀ a b, Lemmas.AStarRoute.Hop a b (routeOfChain chain.length chain) → Lemmas.AStarRoute.Hop a b chain) :=
+  Lemmas.AStarRoute.route_props chain.length chain.length chain (Nat.le_refl _) (Nat.le_refl _)
+
+example : routeOfChain 6 [0, 3, 2, 1, 3, 9] = [0, 3, 9] := by decide
 
 /-- **Optimality under consistency** (exact comparator, eps = 0).  `H` = the heuristic as a function
     of the state; `Legit` = any set of states closed under the successor relation that contains the
